@@ -24,6 +24,8 @@ def rule_make_after_user(ctx, rep):
             interesting = False
             bad = None
             for p in A.paths[b["key"]]:
+                if (p.origin or "") == "debug-assert":
+                    continue  # the "user code" on this path is the unwinding of a failed internal-invariant assertion: not a reachable exit
                 got_block = None
                 made = None
                 for i, e in enumerate(p.events):
